@@ -548,11 +548,8 @@ def export_obj_str(surface, **kwargs):
 
         # Collect faces (1-indexed)
         for t in triangles:
-            vl = t.data
-            temp = "f " + \
-                   str(vl[0] + 1 + vertex_offset) + " " + \
-                   str(vl[1] + 1 + vertex_offset) + " " + \
-                   str(vl[2] + 1 + vertex_offset) + "\n"
+            # all vertices of the face: triangles and quadrilaterals (QuadTessellate)
+            temp = "f " + " ".join(str(vid + 1 + vertex_offset) for vid in t.data) + "\n"
             str_f.append(temp)
 
         # Update vertex offset
@@ -627,7 +624,14 @@ def export_stl_str(surface, **kwargs):
         srf.tessellate(vertex_spacing=vertex_spacing)
         triangles = srf.tessellator.faces
 
-        triangles_list += triangles
+        # STL knows triangles only: a face with more vertices (the quadrilaterals of QuadTessellate) is written as a fan
+        for face in triangles:
+            fverts = face.vertices
+            if len(fverts) == 3:
+                triangles_list.append(face)
+            else:
+                for k in range(1, len(fverts) - 1):
+                    triangles_list.append(elements.Triangle(fverts[0], fverts[k], fverts[k + 1]))
 
     # Write triangle list to ASCII or  binary STL file
     if binary:
@@ -718,11 +722,9 @@ def export_off_str(surface, **kwargs):
 
         # Collect faces (zero-indexed)
         for t in triangles:
+            # number of vertices of the face (3 for triangles, 4 for the quadrilaterals of QuadTessellate), then their ids
             vl = t.data
-            line = "3 " + \
-                   str(vl[0] + vertex_offset) + " " + \
-                   str(vl[1] + vertex_offset) + " " + \
-                   str(vl[2] + vertex_offset) + "\n"
+            line = str(len(vl)) + " " + " ".join(str(vid + vertex_offset) for vid in vl) + "\n"
             str_f.append(line)
 
         # Update vertex offset
